@@ -97,7 +97,7 @@ theorem GoodP.map {P Q : EP} : ∀ (v : View) (t : RState), GoodP P v t →
       · intro hl; exact ihb inner (h.2.2.2.2.2 hl) (fun e x cur he => hm e x cur (by simp [effsOf, he]))
   | «show» c a b _ _ => intro t h _; cases t <;> simp only [GoodP] at h
   | scope sid d kid _ => intro t h _; cases t <;> simp only [GoodP] at h
-  | forRows sel lists row _ => intro t h _; cases t <;> simp only [GoodP] at h
+  | forRows en sel lists row _ => intro t h _; cases t <;> simp only [GoodP] at h
   | forKeyed sel lists =>
     intro t h hm
     cases t <;> simp only [GoodP] at h ⊢
@@ -126,7 +126,7 @@ theorem good_iff {K : Nat} {st : St} : ∀ (v : View) (t : RState), Good K st v 
   | either c a b iha ihb => intro t; cases t <;> simp [Good, GoodP, iha, ihb]
   | «show» c a b _ _ => intro t; cases t <;> simp [Good, GoodP]
   | scope sid d kid _ => intro t; cases t <;> simp [Good, GoodP]
-  | forRows sel lists row _ => intro t; cases t <;> simp [Good, GoodP]
+  | forRows en sel lists row _ => intro t; cases t <;> simp [Good, GoodP]
   | forKeyed sel lists => intro t; cases t <;> simp [Good, GoodP]
 
 
@@ -186,8 +186,8 @@ theorem zEffs_held : ∀ (t : RState), zEffs t.held = effsOf t := by
   | «show» e m c a b left inner _ => simp [RState.held, zEffs, effsOf, optEffs]
   | forK e sel lists ks texts => rfl
   | scope m sid isSig inner ih => simp only [RState.held, effsOf, ih]
-  | rows e sel lists row ks items _ => simp [RState.held, zEffs, effsOf, optEffs]
-  | rowCons k r rest ihr ihrest => simp only [RState.held, zEffs_append, ihr, ihrest, effsOf]
+  | rows e en sel lists row ks items _ => simp [RState.held, zEffs, effsOf, optEffs]
+  | rowCons k ix r rest ihr ihrest => simp only [RState.held, zEffs_append, ihr, ihrest, effsOf]
   | rowNil => rfl
 
 /-! ## dropping effects -/
@@ -331,8 +331,8 @@ def viewOf : RState → View
   | .forK _ sel lists _ _ => .forKeyed sel lists
   -- (not used for these: no state of a view of the theorems' class has this shape)
   | .scope _ _ _ inner => viewOf inner
-  | .rows _ sel lists row _ _ => .forRows sel lists row
-  | .rowCons _ _ _ => .unit
+  | .rows _ en sel lists row _ _ => .forRows en sel lists row
+  | .rowCons _ _ _ _ => .unit
   | .rowNil => .unit
 
 theorem GoodAttrP.viewOf {P : EP} : ∀ {a : Attr} {s : AState}, GoodAttrP P a s → viewOfA s = a := by
@@ -363,7 +363,7 @@ theorem GoodP.viewOf {P : EP} : ∀ (v : View) (t : RState), GoodP P v t → RVi
     simp [RView.viewOf, h.1, h.2.1, h.2.2.1]
   | «show» c a b _ _ => intro t h; cases t <;> simp only [GoodP] at h
   | scope sid d kid _ => intro t h; cases t <;> simp only [GoodP] at h
-  | forRows sel lists row _ => intro t h; cases t <;> simp only [GoodP] at h
+  | forRows en sel lists row _ => intro t h; cases t <;> simp only [GoodP] at h
   | forKeyed sel lists => intro t h; cases t <;> simp only [GoodP] at h; simp [RView.viewOf, h.1, h.2.1]
 
 /-- states of the views of the theorems' class contain no component-local state -/
@@ -389,7 +389,7 @@ theorem GoodP.locals_nil {P : EP} : ∀ (v : View) (t : RState), GoodP P v t →
   | «show» c a b _ _ => intro t h; cases t <;> simp only [GoodP] at h
   | forKeyed sel lists => intro t h; cases t <;> simp only [GoodP] at h; rfl
   | scope sid d kid _ => intro t h; cases t <;> simp only [GoodP] at h
-  | forRows sel lists row _ => intro t h; cases t <;> simp only [GoodP] at h
+  | forRows en sel lists row _ => intro t h; cases t <;> simp only [GoodP] at h
 
 theorem dropState_eq {st : St} {t : RState} (h : t.locals = []) : dropState st t = dropAll st t.held := by
   simp only [dropState, h, killAll]
@@ -471,7 +471,7 @@ theorem GoodP.bound {K : Nat} {st : St} : ∀ (v : View) (t : RState), GoodP (Ef
         | false => exact ihb inner (h.2.2.2.2.2 hl) e he
   | «show» c a b _ _ => intro t h _ _; cases t <;> simp only [GoodP] at h
   | scope sid d kid _ => intro t h _ _; cases t <;> simp only [GoodP] at h
-  | forRows sel lists row _ => intro t h _ _; cases t <;> simp only [GoodP] at h
+  | forRows en sel lists row _ => intro t h _ _; cases t <;> simp only [GoodP] at h
   | forKeyed sel lists =>
     intro t h e he
     cases t <;> simp only [GoodP] at h
@@ -554,7 +554,7 @@ theorem held_ok {K : Nat} {st : St} : ∀ (v : View) (t : RState), GoodP (EffWf 
         exact ⟨by rw [hv]; exact hg, by rw [hv]; exact hw.2, by rw [hv]; exact hc.2⟩
   | «show» c a b _ _ => intro t h _ _ _ _; cases t <;> simp only [GoodP] at h
   | scope sid d kid _ => intro t h _ _ _ _; cases t <;> simp only [GoodP] at h
-  | forRows sel lists row _ => intro t h _ _ _ _; cases t <;> simp only [GoodP] at h
+  | forRows en sel lists row _ => intro t h _ _ _ _; cases t <;> simp only [GoodP] at h
   | forKeyed sel lists =>
     intro t h _ _ z hz
     cases t <;> simp only [GoodP] at h
